@@ -251,11 +251,16 @@ def probe(tier, seed):
             # module level blocked functions
             for fname in BLOCKED_FUNCS:
                 for args in (((G0, {(1, 2): 3}, "w"), (G0, {(1, 2): {"w": 3}})) if fname == "set_edge_attributes" else ((G0, "w"), (G0, "t"))):
+                  for spelling in ("positional", "keywords"):
                     G = copy.deepcopy(G0)
                     before = internal(G)
                     exc = None
                     try:
-                        getattr(dn, fname)(*((G,) + args[1:]))
+                        if spelling == "positional":
+                            getattr(dn, fname)(*((G,) + args[1:]))
+                        else:       # the same call with every argument (the graph included) given by name
+                            names = [q for q in inspect.signature(getattr(dn, fname)).parameters][:len(args)]
+                            getattr(dn, fname)(**dict(zip(names, (G,) + args[1:])))
                     except Exception as ex:  # noqa
                         exc = ex
                     n_calls += 1
